@@ -338,6 +338,22 @@ class PathM:
         return self._name
 
 
+class ConfigDictM(dict):
+    """one configuration section: a dict whose `data` is itself, created
+    empty or from a mapping, optionally knowing its section"""
+
+    def __init__(self, *a, section=None, **k):
+        super().__init__(*a, **k)
+        self.section = section
+
+    @property
+    def data(self):
+        return self
+
+    def copy(self):
+        return ConfigDictM(self, section=self.section)
+
+
 class Config(dict):
     def as_dict(self):
         return {k: dict(v) for k, v in self.items()}
@@ -490,6 +506,8 @@ def base_globals(repo, hw, cs, scalars, extra=None):
         "LimitingExportSizeWarning": UserWarning,
         "IMAGEIO_AVAILABLE": True, "FCSWRITE_AVAILABLE": True,
         "get_basin_classes": lambda: {},
+        "ConfigurationDict": ConfigDictM,
+        "Configuration": Config,
         "_warned": warned,
     }
     mini = Mini(g)
